@@ -498,22 +498,21 @@ class Prop:
         return [[o, self.project(o)] for o in m], ''
 
     def canon(self, case, obs):
-        """silent RIB operations print nothing on the implementation side; destination ids are
-        renamed by first appearance within the run: the mirror does not depend on the numbering
-        (PendingTx is keyed by prefix), uniqueness of the ids is judged by the oracle"""
+        """silent RIB operations print nothing on the implementation side; the value of a
+        destination id is not compared (a change names its prefix; the mirror does not depend on
+        the numbering since PendingTx is keyed by prefix): that the ids of live destinations are
+        stable and pairwise distinct is judged by the oracle (id_clash)"""
         out = []
         for o in obs:
             if o == [-1]:
                 out.append(o)
                 continue
-            ren = {}
             r = []
             for x in o:
                 if x == [0, []]:
                     continue
                 if x[0] == 0:
-                    i = x[1][0]
-                    x = [0, [ren.setdefault(i, len(ren))]] + x[2:]
+                    x = [0, [0]] + x[2:]
                 r.append(x)
             out.append(r)
         return out
